@@ -337,6 +337,7 @@ BROAD_OPS = [
     F(params_initial={"__params__": "para_A"}),
     F(range_type="bogus"),                              # raises
     F(preprocessing=P1),
+    F(preprocessing_options=O_FCL),            # options without the steps
     ["E", "weight_cp", 0],
     ["E", "gcf_k", 0.5],
     ["E", "range_x", [-5e-7, 1e-6]],
